@@ -113,6 +113,9 @@ type funcContext struct {
 	typeResolver *typeparams.Resolver
 	// Mapping from function-level objects to JS variable names they have been assigned.
 	objectNames map[types.Object]string
+	// Mapping from function-level variables to the JS variable names that hold
+	// their pointer objects, allocated in this context. Created on demand.
+	varPtrNames map[*types.Var]string
 	// Number of function literals encountered within the current function context.
 	funcLitCounter int
 }
